@@ -45,6 +45,9 @@ for _cfg in (('core_maths', 3), ('core_maths', 4)):
     for _P in (1, 2):
         DIRECTED.append(dict(cfg=_cfg, kind='gen', P_obs=_P, P_first=_P, ops=['gen_faulty_inproc']))
         DIRECTED.append(dict(cfg=_cfg, kind='gen', P_obs=_P, P_first=_P, ops=['gen_faulty_inproc', 'gen_faulty_inproc']))
+for _st in STAGES:
+    DIRECTED.append(dict(cfg=('core_maths', 3), kind='fit', stage=_st, P_obs=1, P_first=2, ipe=False, ops=['pipe_synth']))
+DIRECTED.append(dict(cfg=('core_maths', 4), kind='gen', P_obs=1, P_first=1, ops=['pipe_synth']))
 DIRECTED.append(dict(cfg=('core_maths', 3), kind='fit', stage='test_all', P_obs=1, P_first=1, ipe=True, ops=['pipe_other_basis']))
 DIRECTED.append(dict(cfg=('core_maths', 4), kind='fit', stage='test_all', P_obs=1, P_first=1, ipe=True, ops=['pipe_other_basis', 'pipe_other_like']))
 
@@ -97,6 +100,7 @@ def draw_history(seed, i, quick, recipe=None):
             like_oth['data_dir']: dict(cls=like_oth['cls'], file=like_oth['data_file'], seed=rs % 1000 + (0 if like_oth['data_dir'] == 'user' else 1), npts=24)}
     if like_oth['data_dir'] == 'user':
         data['user'] = dict(cls='Gauss', file='data.txt', seed=rs % 1000, npts=24)
+    data.setdefault('user', dict(cls='Gauss', file='data.txt', seed=rs % 1000, npts=24))
     segments = [dict(P=rng.choice([1, 1, 2, 3]), program=[])]
     ipe = rng.random() < 0.35           # test_all with ignore_previous_eqns=True (needs the lower complexities)
     ipe = recipe.get('ipe', ipe)
@@ -112,6 +116,7 @@ def draw_history(seed, i, quick, recipe=None):
     libs = set()
     likes_here = set()
     desc = []
+    synth = [0]
 
     def cur():
         return segments[-1]['program']
@@ -134,7 +139,7 @@ def draw_history(seed, i, quick, recipe=None):
         return dict(FIT_OPTS, ignore_previous_eqns=True) if on else dict(FIT_OPTS)
     nops = rng.randint(0, 5)
     CODES = {'gen_other': 0.1, 'gen_same_basis': 0.3, 'gen_identical': 0.5, 'pipe_same': 0.6, 'pipe_other_like': 0.7, 'pipe_other_basis': 0.8,
-             'restart': 0.9, 'gen_faulty': 0.95, 'gen_faulty_inproc': 0.985}
+             'pipe_synth': 0.88, 'restart': 0.9, 'gen_faulty': 0.95, 'gen_faulty_inproc': 0.985}
     plan_ops = recipe.get('ops')
     for oi in range(len(plan_ops) if plan_ops is not None else nops):
         c = rng.random()
@@ -179,6 +184,12 @@ def draw_history(seed, i, quick, recipe=None):
             need_like('Lbas', dict(like_obs, cls='Gauss', data_file='data.txt', data_dir='user', run_name='bas', fn_set=other_basis))
             cur().extend(pipeline('Lbas', n, opts=o))
             desc.append('pipeline other basis %s' % other_basis + (' (ipe)' if o.get('ignore_previous_eqns') else ''))
+        elif c < 0.89:
+            # a complete pipeline on a hand-written complexity-11 library (raises the recursion limit, 5-column tables)
+            need_like('Lsyn', dict(cls='Gauss', data_file='data.txt', run_name='syn', data_dir='user', fn_set='synth11'))
+            cur().extend(pipeline('Lsyn', 11, opts=dict(FIT_OPTS)))
+            synth[0] = 11
+            desc.append('pipeline synthetic complexity 11')
         elif c < 0.94:
             if cur():
                 segments.append(dict(P=forced_P or rng.choice([1, 2, 3]), program=[]))
@@ -244,7 +255,7 @@ def draw_history(seed, i, quick, recipe=None):
         observed = dict(kind='fit', stage=stage, runname=runname, compl=n, P=P_obs, like=like_obs, npseed=npseed, kw=okw)
     segments = [s for s in segments if s['program']]
     return dict(segments=segments, observed=observed, data=data, seed=rs, run_seed=rs, policy={'kind': rng.choice(['lowest', 'uniform', 'pct'])},
-                eager=rng.choice([0.0, 0.5, 1.0]), desc=desc, nops=len(desc), npseed=0, ipe=ipe)
+                eager=rng.choice([0.0, 0.5, 1.0]), desc=desc, nops=len(desc), npseed=0, ipe=ipe, synth_lib=synth[0])
 
 
 def main(tier, seed, budget):
